@@ -425,9 +425,10 @@ def render(f):
                         for k, v in sorted(f['dbus'].items())))
     L.append(']')
     L.append('')
-    L.append('/-- (chain, order, step name, action method) in source order -/')
+    L.append('/-- (chain, order, step name, action method), sorted by chain and order -/')
     L.append('def chainSteps : List (String × Int × String × String) := [')
-    L.append(',\n'.join('  (%s, %d, %s, %s)' % (lean_str(c), o, lean_str(n), lean_str(a)) for (c, o, n, a) in f['chain']))
+    # canonical order (chain, order, name): the order in which the chains are run, not that of the statements
+    L.append(',\n'.join('  (%s, %d, %s, %s)' % (lean_str(c), o, lean_str(n), lean_str(a)) for (c, o, n, a) in sorted(set(f['chain']))))
     L.append(']')
     L.append('')
     L.append('/-- fields_desc of every packet class: (class, [(field class, field name, detail)]) -/')
